@@ -350,8 +350,11 @@ class BptkServer(Flask):
             for scenario_manager_name, scenario_manager_data in settings.items():
                 
                 for scenario_name, scenario_settings in scenario_manager_data.items():
-                    self._bptk.reset_scenario_cache(scenario_manager=scenario_manager_name,scenario=scenario_name)
-                    scenario = self._bptk.get_scenario(scenario_manager_name,scenario_name)
+                    try:
+                        self._bptk.reset_scenario_cache(scenario_manager=scenario_manager_name,scenario=scenario_name)
+                        scenario = self._bptk.get_scenario(scenario_manager_name,scenario_name)
+                    except KeyError:
+                        continue # a name that does not exist is skipped, the settings of the other scenarios still apply (whatever the order of the keys)
                     if "constants" in scenario_settings:
                         constants = scenario_settings["constants"]
                         for constant_name, constant_settings in constants.items():
